@@ -47,7 +47,12 @@ class World:
         self.steps.append(step)
         if step.get("body"):
             self.contents.add(step["body"])
-        return len(self.steps) - 1
+        k = len(self.steps) - 1
+        if step["kind"] == "upost" and (self.conf.get("uploadmax") or 1000) < 50:
+            # the count prune is started asynchronously by the insertion that exceeds the limit: run it
+            # synchronously right away so that the history is deterministic
+            self.steps.append(prune_count(step["repo"]))
+        return k
 
     def repo(self):
         return self.rng.choice(self.repos)
@@ -85,7 +90,11 @@ class World:
         d = dg(alg, data)
         bad = rng.random() < 0.12 * self.profile["bad"]
         dsend = self.wrong_digest(alg, data) if bad else d
-        how = how or pick(rng, dict(mono=self.profile["blob"], postput=self.profile["blob"], chunked=self.profile["chunked"]))
+        if bad and self.blobs[repo] and rng.random() < 0.25:
+            other = rng.choice(self.blobs[repo])
+            if other != data:
+                dsend = dg("sha256", other)      # a digest that is present, with a body that is not its content
+        how = how or pick(rng, dict(mono=self.profile["blob"] * self.profile.get("mono", 1), postput=self.profile["blob"], chunked=self.profile["chunked"]))
         if how == "mono":
             aq = rng.choice([None, None, alg, rng.choice(ALGS), "md5"]) if rng.random() < 0.3 else None
             self.add(upload_post(repo, digest=dsend, alg=aq, body=data, unknown=rng.random() < 0.2))
@@ -122,8 +131,7 @@ class World:
                 self.add(upload_put(repo, sid, None, d, state_token(size + len(final)), b""))
         if not bad:
             self.blobs[repo].append(data)
-        if rng.random() < 0.5:
-            self.add(blob_get(repo, d, head=rng.random() < 0.3))
+        self.add(blob_get(repo, d, head=rng.random() < 0.2))
         if bad and dvalid_py(dsend):
             self.add(blob_get(repo, dsend))
         return data
@@ -322,7 +330,15 @@ class World:
                 ctype = rng.choice([MT_DOCK_M, MT_DOCK_I, MT_OCI_I, MT_OCI_M])
             self.contents.add(body)
         unknown = rng.random() < 0.25
-        self.add(manifest_put(repo, ref, body, ctype=ctype, dq=dq, unknown=unknown))
+        gid = None
+        if (bad or missing) and rng.random() < 0.7 or rng.random() < 0.08:
+            gid = len(self.steps)
+            self.probe_repo(repo, ("pre", gid))
+        k = self.add(manifest_put(repo, ref, body, ctype=ctype, dq=dq, unknown=unknown))
+        if gid is not None:
+            self.steps[k]["probed"] = gid
+            self.probe_repo(repo, ("post", gid))
+        self.refcheck(repo, body, k)
         if not bad and not missing:
             self.manifests[repo].append((body, mt))
             if is_tag_py(ref):
@@ -387,19 +403,9 @@ class World:
         self.add(tag_list(repo, n, last, head=rng.random() < 0.1))
 
     def walk_tags(self, repo=None):
-        """follow pagination with a believed-complete walk (the oracle re-derives it from Link)"""
-        rng = self.rng
         repo = repo or self.repo()
-        n = rng.choice([1, 1, 2, 3])
-        tags = sorted(self.tags[repo])
-        last = None
         self.add(tag_list(repo, None, None))
-        for _ in range(len(tags) // n + 2):
-            self.add(dict(tag_list(repo, str(n), last), walk=True))
-            page = [t for t in tags if last is None or t > last][:n]
-            if not page:
-                break
-            last = page[-1]
+        self.add(tag_walk(repo, self.rng.choice([1, 1, 2, 3, 7])))
 
     def list_referrers(self):
         rng = self.rng
@@ -467,6 +473,51 @@ class World:
                 return
         if rng.random() < 0.3:
             self.add(upload_get(rng.choice(self.repos), rng.choice(["nosuchsession", sid, "x"])))
+
+    def probe_repo(self, repo, mark):
+        """a fixed set of reads of one repository, used to compare the observable state around a request"""
+        st = [tag_list(repo)]
+        for t in TAGS[:3]:
+            st.append(manifest_get(repo, t))
+        seen = set()
+        for b, mt in self.manifests[repo][-6:]:
+            d = dg("sha256", b)
+            if d not in seen:
+                seen.add(d)
+                st.append(manifest_get(repo, d, head=True))
+        for b in self.blobs[repo][-6:]:
+            d = dg("sha256", b)
+            if d not in seen:
+                seen.add(d)
+                st.append(blob_get(repo, d, head=True))
+        for sj in sorted(self.subjects[repo])[:4]:
+            st.append(referrers(repo, sj))
+        for x in st:
+            x["probe"] = mark
+            self.add(x)
+
+    def refcheck(self, repo, body, k):
+        """HEAD every digest the pushed body references (the oracle requires them present when the push was accepted)"""
+        try:
+            j = json.loads(body.decode("utf-8"))
+        except Exception:
+            return
+        if not isinstance(j, dict):
+            return
+        ds = []
+        for key in ("config",):
+            if isinstance(j.get(key), dict):
+                ds.append(("config", j[key].get("digest")))
+        for key in ("layers", "manifests"):
+            if isinstance(j.get(key), list):
+                for x in j[key]:
+                    if isinstance(x, dict):
+                        ds.append((key, x.get("digest")))
+        for role, d in ds:
+            if isinstance(d, str) and dvalid_py(d):
+                st = blob_get(repo, d, head=True)
+                st["refcheck"] = (k, role)
+                self.add(st)
 
     def probe(self):
         """read everything the belief knows about: used by oracles and by the correspondence"""
